@@ -132,7 +132,9 @@ def _worker_run(args):
     smt.CROSS.update(done=0, agree=0, disagree=0, cvc5_unknown=0, log=[])
     cross["ratnorm"] = dict(smt.RATNORM)
     for k in smt.RATNORM:
-        smt.RATNORM[k] = 0
+        if k != "n":
+            smt.RATNORM[k] = 0
+    cross["ratnorm"].pop("n", None)
     return idx, res, sym.STATS.as_dict(), funcs, lines, time.perf_counter() - t0, cross
 
 
